@@ -5,8 +5,9 @@ adds all 2^28 four-septet sequences), four- and five-septet sequences over the s
 the five-byte forms with every possible 5th byte (0..255, terminated or not), each followed by a sentinel tail
 so that 'bytes consumed' is observable.  Space (encode): every value in [0, 2^16), 2^k+d (k<=32, |d|<=2),
 their negatives (signed), and every composition of the septet alphabet; uleb128p1 with -1.
-Oracle: the arithmetic definition of the DEX spec (ref below).  Fifth bytes carrying bits beyond 32 are
-outside the DEX value domain: only 'consumes exactly 5 bytes and returns' is required there.
+Oracle: the arithmetic definition of the DEX spec (ref below).  Fifth bytes carrying bits beyond 32 that are not plain sign
+copies are outside the DEX value domain: only 'consumes exactly 5 bytes and returns' is required there.  A signed fifth byte
+00..0f (value bits 28..31 only) IS in the domain: the result is that 32-bit pattern read as a signed integer.
 """
 import io
 import itertools
@@ -78,8 +79,12 @@ def in_domain_s(septs, raw5=None):
         return True
     if raw5 & 0x80:
         return False
-    hi = (raw5 >> 3) & 0xf     # bits 3..6 must all equal the sign bit (bit 3 -> value bit 31)
-    return hi in (0x0, 0xf)
+    if raw5 <= 0x0f:
+        # only value bits 28..31 are present: the 32-bit pattern is fully determined (0x08..0x0f: bit 31 set, i.e. the negative
+        # number a 32-bit reader such as libdex yields for 'ff ff ff ff 0f' = -1), although the redundant sign copies are absent
+        return True
+    hi = (raw5 >> 3) & 0xf     # otherwise bits 3..6 must all equal the sign bit (bit 3 -> value bit 31)
+    return hi == 0xf
 
 
 def check_decode(dex, cm, raw, septs, acc, full_tails=False):
